@@ -36,6 +36,7 @@ INVARIANT Proportional
 INVARIANT OperationalBelowDenot
 INVARIANT DiscUniform
 INVARIANT DiscEmpty
+INVARIANT TriLawSound
 INVARIANT Emit
 CHECK_DEADLOCK FALSE
 """
@@ -48,6 +49,7 @@ def catalogue():
         G.surf("U1", (-1, 1, -2, 2, 0, 2)),
         G.grid("G1", [[0, 1, 0, 0], [0, 0, 1, 0], [1, 0, 0, 0]], 1, 1, -1.75, -0.75),
         G.pset("Q4", (0.25, 0.25, 0), (1.25, 1.25, 0), (-0.75, 2.25, 0), (2.25, 0.25, 0), (-1.75, -1.75, 0), (0.25, -2.75, 0)),
+        *G.more_multipolygons(),
         G.pset("Q5", (0.25, 0.25, 2), (1.25, 1.25, 2), (-0.75, 2.25, 2), (2.25, 0.25, 2), (-1.75, -1.75, 2), (0.25, -2.75, 2)),
     ]
     return cat
@@ -272,13 +274,18 @@ def run_traces(item):
 
 # ------------------------------------------------------------------ (c) primitive / specialised samplers
 
-PRIM = ["V1", "V2", "V3", "P1", "P2", "P3", "P4", "R1", "R2", "R3", "C1", "C2", "C3", "S1", "S2", "S3", "S4",
+PRIM = ["V1", "V2", "V3", "P1", "P2", "P3", "P4", "M1", "M2", "M3", "M4", "R1", "R2", "R3", "C1", "C2", "C3", "S1", "S2", "S3", "S4",
         "L1", "L2", "L3", "T1", "T2", "Q1", "Q3", "G1", "B1", "U1"]
 # specialised (non-generic) compositions the dispatch resolves itself
 COMPS = [("inter", "P2", "P3"), ("union", "P2", "P3"), ("diff", "P2", "P3"), ("inter", "P1", "P4"), ("union", "P1", "P4"),
          ("diff", "P1", "P4"), ("inter", "V3", "P4"), ("inter", "V2", "C2"), ("inter", "V1", "V2"), ("union", "V1", "V2"), ("diff", "V1", "V2"),
          ("inter", "V1", "L1"), ("inter", "P1", "L1"), ("inter", "R1", "C1"), ("diff", "L1", "P1"), ("inter", "V1", "T1"),
-         ("inter", "F1", "P1"), ("inter", "F1", "P2"), ("inter", "C2", "R2"), ("diff", "P2", "C2"), ("inter", "S4", "P2")]
+         ("inter", "F1", "P1"), ("inter", "F1", "P2"), ("inter", "C2", "R2"), ("diff", "P2", "C2"), ("inter", "S4", "P2"),
+         # compositions whose result has several connected components of different areas
+         ("diff", "R1", "K1"), ("diff", "R3", "K2"), ("inter", "P2", "K3"), ("inter", "K3", "P2"), ("union", "P1", "K4"),
+         ("union", "K4", "P1"), ("union", "M1", "M2"), ("diff", "M3", "K2"), ("inter", "M1", "P4"), ("diff", "P2", "K3"),
+         ("inter", "V3", "M1"), ("inter", "F1", "M3")]
+RECTILINEAR = ("poly", "rect", "vol", "fp")
 
 
 def run_prim(item):
@@ -313,8 +320,12 @@ def run_prim(item):
     out = {"smp": smp, "raw": raw, "rejected": rej, "rtype": type(reg).__name__}
     if err:
         out["error"] = err
-    if kind == "prim" and cat[ix[spec]]["k"] == "poly":
-        # the triangulation and the call that selects a triangle
+    import scenic.core.regions as _R
+
+    rectilinear = kind == "prim" or all(cat[ix[nm]]["k"] in RECTILINEAR for nm in spec[1:])
+    if type(reg) is _R.PolygonalRegion and rectilinear:
+        # the triangulation and the call that selects a triangle (primitive polygons and every
+        # composition whose real result is a PolygonalRegion)
         tris, cum = reg._samplingData
         out["tris"] = [[c for xy in list(t.exterior.coords)[:3] for c in xy] for t, _b in tris]
         out["cum"] = [float(c) for c in cum]
@@ -339,6 +350,29 @@ def run_prim(item):
 
 
 # ------------------------------------------------------------------ main
+
+
+def choices_law(cum, cum_int):
+    """Exact law of `random.choices(pop, cum_weights=cum)[0]`: the real CPython algorithm (a
+    random.Random whose random() is scripted) is run once per cell of the partition of [0,1) induced
+    by the cumulative weights; cell lengths are exact rationals of the lattice integers cum_int."""
+    n = len(cum)
+    total = Fraction(cum_int[-1])
+    cuts = sorted({Fraction(c) / total for c in cum_int if 0 < Fraction(c) / total < 1})
+    edges = [Fraction(0)] + cuts + [Fraction(1)]
+    law = [Fraction(0)] * n
+
+    class _R(_random.Random):
+        u = 0.0
+
+        def random(self):
+            return self.u
+
+    r = _R()
+    for lo, hi in zip(edges, edges[1:]):
+        r.u = float((lo + hi) / 2)
+        law[r.choices(range(n), cum_weights=cum)[0]] += hi - lo
+    return law
 
 
 def to_int_tri(t):
@@ -483,8 +517,8 @@ def main(tier):
             if any(t is None for t in tris) or any(c is None for c in cum2):
                 ck.violation(f"triangulation of {spec} leaves the lattice", {"property": "C03", "layer": "c", "region": spec, "tris": r["tris"]})
             else:
-                tl_tri.append({"r": ix[spec] + 1, "tris": tris, "cum2": cum2})
-                tri_meta.append(spec)
+                tl_tri.append({"r": ridx, "tris": tris, "cum2": cum2})
+                tri_meta.append((kind, spec, r))
     # verdict level for layer (b): every point returned by a generic sampler, classified against the composed set
     ret_meta = []
     for (op, an, bn), pts in returned.items():
@@ -629,16 +663,30 @@ def main(tier):
             ck.validated(1)
         if len(cls) == 0 and r["rejected"] and kind == "prim":
             ck.violation(f"{name}: every draw was rejected", rep)
-    for k, spec in enumerate(tri_meta):
-        ck.case(("tri", spec), True)
-        r = pres[[i for i, it in enumerate(pitems) if it[0] == "prim" and it[1] == spec][0]]
+    for k, (kind, spec, r) in enumerate(tri_meta):
+        name = spec if kind == "prim" else f"{spec[1]}.{spec[0]}({spec[2]})"
+        ck.case(("tri", name), True)
+        e = out["tri"][k]
         ch = r.get("choices", {})
+        rep = {"property": "C03", "layer": "c", "region": name, "tris": r["tris"], "cum": r["cum"], "choices_call": ch, "tlc": e}
         okc = ch.get("cum") is not None and [float(x) for x in ch["cum"]] == r["cum"] and ch.get("n") == len(r["tris"])
-        if not out["tri"][k]["ok"] or not okc:
-            ck.violation(f"{spec}: triangulation weights are not the running sum of the areas of triangles tiling the polygon",
-                         {"property": "C03", "layer": "c", "region": spec, "tris": r["tris"], "cum": r["cum"], "choices_call": ch, "tlc_ok": out["tri"][k]["ok"]})
+        if not e["ok"] or not okc:
+            failed = [f for f, v in e["facts"].items() if not v]
+            ck.violation(f"{name}: the cumulative weights given to random.choices are not the running sum of the areas of triangles "
+                         f"tiling the set (failed: {failed or 'choices call differs from _samplingData'}; cum = {r['cum'][:8]})", rep)
+            continue
+        # exact law of the selection: CPython's random.choices run on the logged cum_weights with one
+        # representative of every cell of [0,1) cut at the cumulative weights; the spec demands
+        # area/total for every triangle
+        law = choices_law(ch["cum"], [lattice_weight(2 * c, 2) for c in ch["cum"]])
+        want = [Fraction(a2, t2) for a2, t2 in e["law"]]
+        if law != want:
+            bad = [(j, str(law[j]), str(want[j])) for j in range(len(want)) if law[j] != want[j]][:4]
+            ck.violation(f"{name}: triangles are not selected with probability area/total: (index, observed, expected) {bad}",
+                         dict(rep, observed_law=[str(x) for x in law], expected_law=[str(x) for x in want]))
         else:
             ck.validated(1)
+    ck.cov["triangulations_checked"] = len(tri_meta)
     ck.cov["samples_classified_by_tlc"] = nsmp
     ck.cov["samples_mixed_not_judged"] = nmixed
     ck.cov["traces_with_nonlattice_weights"] = nonlattice
